@@ -138,6 +138,10 @@ def solve_lp(
                 solver_name="linprog",
             ) from e
 
+    # Variable bounds can be edited between solves (v.lb = ...) without going
+    # through the problem, so the cached LP data takes the current ones
+    lp_data.bounds = LinearProgramExtractor().extract_bounds(variables)
+
     # Handle maximization by negating objective
     c = lp_data.c
     if lp_data.sense == "max":
